@@ -77,6 +77,7 @@ def to_record(label, src, dst):
     return {"e": "Mn" + a, "in": inn, "out": out}
 
 def run(chk):
+    chk.auto_custom_sha = False      # this check drives its own contexts / tours
     quick = chk.tier == "quick"
     chk.groups = ["musignonce"]
     chk.build(["std"] + ([] if quick else ["verify"]))
